@@ -87,7 +87,7 @@ func oldFormatToken(key, kid, rnd []byte, loc string) []byte {
 }
 
 func famLegit(r *Rng, o *Out, tier string) {
-	n := 250
+	n := 600
 	if tier == "thorough" {
 		n = 6000
 	}
